@@ -108,6 +108,7 @@ type RPCSpec struct {
 
 	Client      []Op `json:"client"`
 	ClientRecv  []Op `json:"client_recv,omitempty"`
+	ClientHdr   []Op `json:"client_hdr,omitempty"` // third client goroutine (Header() callers)
 	Handler     []Op `json:"handler"`
 	HandlerRecv []Op `json:"handler_recv,omitempty"`
 
@@ -517,15 +518,28 @@ func (s *svcImpl) runHandlerOps(spec *RPCSpec, actor string, ops []Op, hio *hand
 		case "sethdr":
 			rec.MD = op.MD
 			log.call(rec)
-			log.ret(rec, hio.setHeader(op.MD.Copy()))
+			if op.Name == "ctx" {
+				// the grpc package-level helpers go through the ServerTransportStream in the context
+				log.ret(rec, grpc.SetHeader(hio.ctx, op.MD.Copy()))
+			} else {
+				log.ret(rec, hio.setHeader(op.MD.Copy()))
+			}
 		case "sendhdr":
 			rec.MD = op.MD
 			log.call(rec)
-			log.ret(rec, hio.sendHeader(op.MD.Copy()))
+			if op.Name == "ctx" {
+				log.ret(rec, grpc.SendHeader(hio.ctx, op.MD.Copy()))
+			} else {
+				log.ret(rec, hio.sendHeader(op.MD.Copy()))
+			}
 		case "settrl":
 			rec.MD = op.MD
 			log.call(rec)
-			hio.setTrailer(op.MD.Copy())
+			if op.Name == "ctx" {
+				_ = grpc.SetTrailer(hio.ctx, op.MD.Copy())
+			} else {
+				hio.setTrailer(op.MD.Copy())
+			}
 			log.ret(rec, nil)
 		case "ret":
 			rec.Code, rec.StatusMsg, rec.Details = op.Code, op.Msg, op.Details
@@ -755,6 +769,13 @@ func (e *Env) runClientOps(spec *RPCSpec, actor string, ops []Op) {
 				go func() {
 					defer e.wg.Done()
 					e.runClientOps(spec, "c2:"+spec.ID, spec.ClientRecv)
+				}()
+			}
+			if len(spec.ClientHdr) > 0 {
+				e.wg.Add(1)
+				go func() {
+					defer e.wg.Done()
+					e.runClientOps(spec, "c3:"+spec.ID, spec.ClientHdr)
 				}()
 			}
 		case "send":
